@@ -92,6 +92,23 @@ fn frag_kind(f: &[u8]) -> (bool, bool) {
     (d == 0b11000 || d == 0b11100, d == 0b11000)
 }
 
+/// The payload of datagram `did` in scenario `k`: in every fourth scenario (even sizes from 8 octets) the last two
+/// octets are chosen so that the UDP checksum over the given addresses and ports computes to 0x0000 -- it then has to
+/// travel as 0xffff, also through the compressed UDP header.
+fn scn_payload(k: usize, did: u32, size: usize, src: &[u8; 16], dst: &[u8; 16], sport: u16, dport: u16) -> Vec<u8> {
+    let mut data = dgram_payload(did, size);
+    if k % 4 == 1 && size >= 8 && size % 2 == 0 {
+        let n = data.len();
+        data[n - 2] = 0;
+        data[n - 1] = 0;
+        use crate::frames::{csum_add, csum_fold, pseudo6, udp_datagram};
+        let dg = udp_datagram(sport, dport, &data);
+        let c0 = csum_fold(csum_add(pseudo6(src, dst, 17, dg.len()), &dg));
+        data[n - 2..].copy_from_slice(&c0.to_be_bytes());
+    }
+    data
+}
+
 /// Independent reading of a non-fragment 6LoWPAN frame as far as C10 needs it: the length of the 802.15.4 header
 /// and of the IPHC header (from the mode bits alone), and -- when the next header is carried inline and says
 /// ICMPv6 -- whether the options of a neighbour-discovery message tile it exactly (every length non-zero, the
@@ -257,7 +274,8 @@ pub fn replay(args: &Args) {
                     a.sockets.get_mut::<udp::Socket>(a.udp).set_hop_limit(Some(hop));
                     for d in 0..count {
                         let did = 1 + d as u32;
-                        let ok = a.sockets.get_mut::<udp::Socket>(a.udp).send_slice(&dgram_payload(did, size), IpEndpoint::new(IpAddress::Ipv6(b.addr), dport)).is_ok();
+                        let pl = scn_payload(k, did, size, &a.addr.octets(), &b.addr.octets(), sport, dport);
+                        let ok = a.sockets.get_mut::<udp::Socket>(a.udp).send_slice(&pl, IpEndpoint::new(IpAddress::Ipv6(b.addr), dport)).is_ok();
                         if ok {
                             accepted += 1;
                         }
@@ -354,7 +372,7 @@ pub fn replay(args: &Args) {
                 // B's application
                 while let Ok((data, meta)) = b.sockets.get_mut::<udp::Socket>(b.udp).recv() {
                     let did = if data.len() >= 4 { u32::from_be_bytes([data[0], data[1], data[2], data[3]]) } else { 1 };
-                    let exp = dgram_payload(if size >= 4 { did } else { 1 }, data.len());
+                    let exp = scn_payload(k, if size >= 4 { did } else { 1 }, data.len(), &a.addr.octets(), &b.addr.octets(), sport, dport);
                     let diff = data.iter().zip(exp.iter()).position(|(x, y)| x != y).map(|x| x as i64).unwrap_or(-1);
                     got.push(json!({"size": data.len(), "diff": diff, "sport": meta.endpoint.port, "dport": dport, "src": meta.endpoint.addr.to_string()}));
                 }
